@@ -559,6 +559,8 @@ def run_shard(spec):
         miner_front_end_lane(st, rng, 2 if quick else 25, period=rng.choice([4, 5, 6]) if lane == "period" else None)
     if lane != "period" and spec["shard"] % 4 == 0:
         tall_lane(st, rng, 1 if quick else 6)
+    if lane == "normal" and spec["shard"] % 4 == 2:
+        route_lane(st.v, st.c, rng, 3 if quick else 20, {k: v for k, v in HEADER_CLASSES.items() if k != "unknown-parent"}, "c05r")
     return st.result()
 
 
@@ -603,6 +605,18 @@ def miner_front_end_lane(st, rng, nsetups, period):
                 st.v("miner-assembled-block-breaks-rule:" + "+".join(sorted(codes & HEADER_CODES)), v["msg"], v["witness"])
         elif v["key"] == "found-candidate-fails-own-validation":
             st.v("miner-assembled-block-rejected-by-own-validation", v["msg"], v["witness"])
+
+
+def route_lane(add_violation, counters, rng, nhist, classes, tag):
+    """this property on the routes by which a RUNNING NODE takes blocks (relay and download, real store): histories in which the
+    node had asked a peer for blocks, blocks were announced, arrived unrequested, late, before their parent, or again with another
+    body (the stories of skv/props/c09.py), built from this check's classes of rule-breaking blocks"""
+    from skv.props import c09
+    mon = c09.route_histories(rng, nhist, 14, classes, tag)
+    counters["route_lane_deliveries"] = counters.get("route_lane_deliveries", 0) + mon.c.get("deliveries", 0)
+    counters["route_lane_stories"] = counters.get("route_lane_stories", 0) + mon.c.get("download_route_stories", 0)
+    for v in mon.viol:
+        add_violation("node-route:" + v["key"], v["msg"], v["witness"])
 
 
 def finalize(m, tier):
